@@ -9,7 +9,7 @@ TIMEOUTS = [20, 50, 100]
 ADV = [7, 13, 31, 61, 127]
 # topic pool: empty, nested prefixes, siblings, binary (0x00 / 0xff), a long one
 TOPICS = ["-", "61", "6162", "616263", "6161", "62", "00", "0000", "ff00", "ff", "6162636465666768", "7a"]
-KINDS = ("sub", "pub")
+KINDS = ("sub", "pub", "xsub")
 
 
 class Gen:
@@ -243,13 +243,81 @@ class Gen:
                 break
         return self.ops
 
+    # -- raw SUB (xsub.c + the socket's upper read queue) -----------------------------------------
+    def gen_xsub(self, n):
+        r = self.r
+        self.ops.append("open sub raw")
+        if self.small:
+            self.ops.append(f"setopt - recv-buffer int {r.choice([0, 1, 2, 2, 3, 4])}")
+        while len(self.ops) < n:
+            k = r.below(100)
+            if k < 6 and len(self.live) < 3 and self.npipes < 8:
+                ok = r.chance(9, 10)
+                self.ops.append(f"pipe_add {'0020' if ok else r.choice(['0021', '0050', '0010'])}")
+                if ok:
+                    self.live.append(self.npipes)
+                self.npipes += 1
+            elif k < 8 and self.npipes:
+                p = r.choice(self.live) if self.live and r.chance(4, 5) else r.below(self.npipes)
+                self.ops.append(f"pipe_drop {p}")
+                if p in self.live: self.live.remove(p)
+            elif k < 40:
+                if not self.live:
+                    if self.npipes >= 8:
+                        self.advance(); continue
+                    self.ops.append("pipe_add 0020"); self.live.append(self.npipes); self.npipes += 1
+                    continue
+                p = r.choice(self.live) if r.chance(19, 20) else r.below(self.npipes)
+                if r.chance(29, 30):
+                    self.ops.append(f"recv_done {p} {self.body()}")
+                else:
+                    self.ops.append(f"recv_done {p} !{r.choice([7, 19, 31])}")
+                    if p in self.live: self.live.remove(p)
+                self.busy_aio.clear()
+            elif k < 70:
+                a = self.aio()
+                if a is None:
+                    self.advance(); continue
+                m = self.mode()
+                c = "-" if r.chance(30, 31) else "0"
+                self.ops.append(f"recv {c} {a} {m}")
+                if m not in ("nb", "0"):
+                    self.busy_aio.add(a)
+            elif k < 76:
+                self.ops.append(f"setopt - recv-buffer int {self.bufval()}")
+            elif k < 79:
+                self.ops.append("getopt - recv-buffer int")
+            elif k < 83:
+                self.ops.append(f"cancel {r.below(16)}")
+                self.busy_aio.clear()
+            elif k < 85:
+                self.ops.append(f"abort {r.below(16)} {r.choice([5, 20, 7])}")
+                self.busy_aio.clear()
+            elif k < 90:
+                self.advance()
+            elif k < 96:
+                self.ops.append("poll")
+            elif k < 98:
+                a = self.aio()
+                if a is not None:
+                    self.ops.append(f"send {'-' if r.chance(3, 4) else '0'} {a} - 0102 {r.choice(['nb', 'inf'])}")
+            elif k < 99:
+                self.ops.append(r.choice(["ctx_open 0", "ctx_close 0", "sub - 61", "unsub - 61", "sub 0 61"]))
+            elif r.chance(1, 2):
+                self.ops.append("close")
+                break
+        return self.ops
+
     def gen(self, n):
-        return self.gen_sub(n) if self.kind == "sub" else self.gen_pub(n)
+        return {"sub": self.gen_sub, "pub": self.gen_pub, "xsub": self.gen_xsub}[self.kind](n)
+
+
+XSUB_BASE = 10_000_000      # raw-SUB cases use their own index range, so the SUB / PUB streams are what they were
 
 
 def gen_case(seed, tier, i):
     r = core.Rng(seed, PROP, tier, i)
-    kind = "pub" if i % 3 == 2 else "sub"
+    kind = "xsub" if i >= XSUB_BASE else ("pub" if i % 3 == 2 else "sub")
     return kind, Gen(r, kind).gen(r.range(8, 60))
 
 
@@ -257,6 +325,8 @@ def kind_of(ops):
     for o in ops[:3]:
         if o.startswith("open pub"):
             return "pub"
+        if o.startswith("open sub raw"):
+            return "xsub"
     return "sub"
 
 
@@ -342,7 +412,8 @@ def run(tier, seed, replay=None):
             ops = ops[1:]
         allc = [(kind_of(ops), ops)]
     else:
-        allc = corpus_cases() + [gen_case(seed, tier, i) for i in range(n)]
+        nx = 600 if tier == "quick" else 15000
+        allc = corpus_cases() + [gen_case(seed, tier, i) for i in range(n)] + [gen_case(seed, tier, XSUB_BASE + i) for i in range(nx)]
     results = {}
     for kind in KINDS:
         cs = [ops for k, ops in allc if k == kind]
@@ -415,7 +486,8 @@ def run(tier, seed, replay=None):
                    "sibling / binary / long topics plus random ones, bodies built from pool topics (exact, one byte short, one byte off, extended), "
                    "receive buffers 1-8 and both PREFNEW settings, subscribe / unsubscribe / receive in all modes / cancel / abort / time / "
                    "context open-close-reopen / option changes / poll / close) or one PUB socket (send buffers 1-8, 0-4 pipes, sends in all modes, "
-                   "transport completions ok/err, pipe add/drop, resizes), 8-60 events from splitmix64(seed,C05,tier,i), each run under "
+                   "transport completions ok/err, pipe add/drop, resizes) or (600 quick / 15000 thorough extra cases) one raw SUB socket (receive "
+                   "buffers 0-8 incl. shrinks below the fill level, arrivals, receives in all modes, cancel / abort / time / poll / close), 8-60 events from splitmix64(seed,C05,tier,i), each run under "
                    f"{len(scheds)} schedule seeds; distinct = distinct op lists longer than 4",
            "schedules_per_case": len(scheds), "ops": tot["ops"], "op_histogram": op_hist, "event_histogram": ev_hist,
            "samples": [allops[0], allops[-1]], "judge_violations": tot["judge"], "model_mismatches": tot["model"], "crashes": tot["crash"],
@@ -424,6 +496,6 @@ def run(tier, seed, replay=None):
                         ["protocol callbacks are atomic under the protocol mutex (SIM still interleaves their unlocked tails)",
                          "the mock transport honours the transport contract of the real transports",
                          "nni_lmq behaves as a bounded FIFO (C18)", "allocation never fails (nni_msg_dup / nni_msg_unique / topic allocation)",
-                         "raw SUB (xsub.c: no filtering, socket-level nni_msgq) is not modelled"],
+                         "raw SUB: the socket's upper read queue (nni_msgq) behaves as the FIFO channel of C18 (ring indices abstracted)"],
                         time.time() - t0, len(v.violations))
     return v.finish()
